@@ -40,6 +40,50 @@ type c04Case struct {
 	Form int `json:"inscription_push_form,omitempty"`
 	// All: every input spends the same script and all are signed at once through FillAllInputs
 	All bool `json:"fill_all_inputs,omitempty"`
+	// Repoint: every input is locked to ANOTHER key; ONE unlocker object signs them all, its
+	// PrivateKey field set to the input's key before each FillInput
+	Repoint bool `json:"one_unlocker_object_rekeyed_per_input,omitempty"`
+}
+
+// c04Repoint: one unlocker.Simple value, re-keyed between inputs, signs every input of a transaction
+// whose inputs are locked to different keys; every input must verify.
+func c04Repoint(c c04Case) (fs []rep.Finding) {
+	ref := &txref.Tx{Version: 2, LockTime: 17}
+	var privs []*bec.PrivateKey
+	for i := 0; i < c.NIn; i++ {
+		priv, pub := bec.PrivKeyFromBytes(bec.S256(), c04Keys[(c.Key+i)%len(c04Keys)])
+		privs = append(privs, priv)
+		in := p2pkhIn(i, uint64(9000+i))
+		in.PrevScript = refP2PKH(refHash160(pub.SerialiseCompressed()))
+		if c.Insc {
+			in.PrevScript = append(append([]byte(nil), in.PrevScript...), c14Templates()["inscription"][25:]...)
+		}
+		ref.Ins = append(ref.Ins, in)
+	}
+	for i := 0; i < c.NOut; i++ {
+		ref.Outs = append(ref.Outs, txref.Out{Sats: uint64(700 + i), Script: refP2PKH(fill(20, byte(0x90+i)))})
+	}
+	tx := toLib(ref)
+	for _, in := range tx.Inputs {
+		in.UnlockingScript = nil
+	}
+	u := &unlocker.Simple{}
+	for i := range tx.Inputs {
+		u.PrivateKey = privs[i]
+		if err := tx.FillInput(context.Background(), u, bt.UnlockerParams{InputIdx: uint32(i), SigHashFlags: sighash.Flag(c.HT)}); err != nil {
+			return append(fs, rep.F("sign|error", err.Error()))
+		}
+	}
+	for i := range ref.Ins {
+		ref.Ins[i].Script = append([]byte(nil), *tx.Inputs[i].UnlockingScript...)
+	}
+	for i := range ref.Ins {
+		if err := c04Verify(ref, i, c.HT&0x40 != 0, nil); err != nil {
+			fs = append(fs, rep.F("rekeyed-unlocker|rejects-own-signature", fmt.Sprintf("input %d, signed by an unlocker object whose key had been set for it after it had signed with another key, is rejected: %v", i, err)))
+			break
+		}
+	}
+	return
 }
 
 // c04InscLock builds a P2PKH inscription locking script in the given push form.
@@ -277,6 +321,9 @@ func c04Check(c c04Case) (fs []rep.Finding) {
 			lock = append(append(lock, 0x6a), minimalPush(fill(c.Trailer, 0x42))...)
 		}
 	}
+	if c.Repoint {
+		return c04Repoint(c)
+	}
 	if c.Resign {
 		return c04Resign(c, priv, lock)
 	}
@@ -437,7 +484,7 @@ func c04Resign(c c04Case, priv *bec.PrivateKey, lock []byte) (fs []rep.Finding) 
 
 func init() {
 	p := register(&Prop{ID: "C04", Level: "exploration",
-		Rule: "exhaustive product: 4 (quick) / 8 (thorough) private keys (incl. 1 and n-1) x shapes nIn 1..3 x nOut 0..3 x every signed position x spent script {P2PKH, P2PKH inscription, inscription with an OP_RETURN trailer pushing 1,2,3,4,75,76 bytes, inscriptions whose envelope uses non-minimal pushes (content through OP_PUSHDATA1/2/4, tag and content type through PUSHDATA1/2, key hash through PUSHDATA1)} x the 6 FORKID hash types verified with the FORKID flag and the 6 legacy types verified without it x EVERY single-field mutation class at every position, numeric fields changed in their lowest and in their highest byte (version, locktime, each input's txid/vout/sequence, another input's unlocking script / spent value, each output's value/script, output insertion at every gap / removal, input insertion at every gap / removal, adjacent swaps, spent value, spent script; the spent-output mutations also with the transaction object still carrying the signer-side record of the spent output). The input is signed through Tx.FillInput + unlocker.Simple and verified with interpreter.Execute(WithTx, WithAfterGenesis[, WithForkID]). plus sign -> in-place edit of the same Tx object -> sign again -> verify sequences (10 edit kinds), through FillInput and - every input spending the same script - through FillAllInputs twice (every input must verify afterwards). Oracle: unmutated accepted; re-signed accepted; mutated accepted iff the reference digest (certified on the node vectors) of the mutated context equals the original digest. distinct_nontrivial = distinct (shape, position, hash type, mutation) verifications",
+		Rule: "exhaustive product: 4 (quick) / 8 (thorough) private keys (incl. 1 and n-1) x shapes nIn 1..3 x nOut 0..3 x every signed position x spent script {P2PKH, P2PKH inscription, inscription with an OP_RETURN trailer pushing 1,2,3,4,75,76 bytes, inscriptions whose envelope uses non-minimal pushes (content through OP_PUSHDATA1/2/4, tag and content type through PUSHDATA1/2, key hash through PUSHDATA1)} x the 6 FORKID hash types verified with the FORKID flag and the 6 legacy types verified without it x EVERY single-field mutation class at every position, numeric fields changed in their lowest and in their highest byte (version, locktime, each input's txid/vout/sequence, another input's unlocking script / spent value, each output's value/script, output insertion at every gap / removal, input insertion at every gap / removal, adjacent swaps, spent value, spent script; the spent-output mutations also with the transaction object still carrying the signer-side record of the spent output). The input is signed through Tx.FillInput + unlocker.Simple and verified with interpreter.Execute(WithTx, WithAfterGenesis[, WithForkID]). plus sign -> in-place edit of the same Tx object -> sign again -> verify sequences (10 edit kinds), through FillInput and - every input spending the same script - through FillAllInputs twice (every input must verify afterwards); and transactions whose inputs are locked to different keys, all signed by ONE unlocker object re-keyed before each input. Oracle: unmutated accepted; re-signed accepted; mutated accepted iff the reference digest (certified on the node vectors) of the mutated context equals the original digest. distinct_nontrivial = distinct (shape, position, hash type, mutation) verifications",
 	})
 	sp := NewSpace(p, "sign-mutate-verify", c04Check)
 	p.Run = func(r *rep.Run, thorough bool) {
@@ -452,7 +499,7 @@ func init() {
 		(&Space[c04Case]{P: p, Name: sp.Name, Check: func(c c04Case) []rep.Finding {
 			fs := c04Check(c)
 			if len(fs) == 0 {
-				r.Distinct(fmt.Sprint(c.NIn, c.NOut, c.Pos, c.Insc, c.HT, c.Mut, c.Param, c.Stale, c.Trailer, c.Resign, c.Form, c.All))
+				r.Distinct(fmt.Sprint(c.NIn, c.NOut, c.Pos, c.Insc, c.HT, c.Mut, c.Param, c.Stale, c.Trailer, c.Resign, c.Form, c.All, c.Repoint))
 			}
 			return fs
 		}}).Each(r, func(yield func(c04Case)) {
@@ -488,6 +535,9 @@ func init() {
 													yield(c04Case{Key: k, NIn: nin, NOut: nout, Pos: pos, Insc: true, Form: form, HT: ht, Mut: m})
 													yield(c04Case{Key: k, NIn: nin, NOut: nout, Pos: pos, Insc: true, Form: form, Trailer: 2, HT: ht, Mut: m})
 												}
+											}
+											if m == mNone && pos == 0 && nin >= 2 {
+												yield(c04Case{Key: k, NIn: nin, NOut: nout, Insc: insc, HT: ht, Repoint: true})
 											}
 											if ht == 0x41 && pos == 0 && k < 2 && prm <= 2 {
 												yield(c04Case{Key: k, NIn: nin, NOut: nout, Pos: pos, Insc: insc, HT: ht, Mut: m, Param: prm, Resign: true, All: true})
